@@ -115,6 +115,18 @@ add("C20", "BSTR",
     "clauses (words kept, width respected), the pandoc branch and Metadata.doc are outside the claim. Trusted: z3, sre "
     "parser, the BSTR engine (validated against the real functions on concrete strings every run).")
 
+add("C12", "BSTR+CH",
+    "BSTR symbolic execution of every schema-side renamer over symbolic identifiers (z3 validity at each leaf); CrossHair on "
+    "the lifted file-name disambiguation closure and on Address alias/import rendering",
+    "For EVERY identifier within the length bound each renamer (Field.name, convert_uri_fieldnames, HttpRule body, "
+    "FieldHeader.disambiguated, client_method_name, transport_safe_name) renames iff reserved, by exactly one '_', per "
+    "dotted segment, leaving the rest of its input (the wire-side text) untouched; file-name disambiguation ends outside "
+    "the forbidden and visited sets; the module bound by the rendered import equals the head of the rendered reference.",
+    "DESIGN.md section 5 C12",
+    "Identifiers <= 22 chars over [a-z_] (RPC names <= 16 over [A-Za-z_]), dotted paths <= 3 segments; file and module "
+    "names from stated menus. That the renamed entity is importable/reachable and the wire shows the original is observed "
+    "only through the C05 client harness (class_/from_), otherwise outside the claim.")
+
 PENDING = {}
 
 
